@@ -261,6 +261,9 @@ pub struct Runtime<'a> {
     // Function scopes mirror lexical block scopes so lookup stays lexical.
     function_scopes: Vec<Vec<FunctionDef<'a>, &'a Arena>, &'a Arena>,
 
+    // Live function activations, oldest first, each with the index of its parameter scope in `env`.
+    activations: Vec<(FunctionId, usize), &'a Arena>,
+
     pub output: Vec<Value<'a>, &'a Arena>,
 
     /// Collection of runtime errors encountered during execution
@@ -311,6 +314,7 @@ impl<'a> Runtime<'a> {
         Self {
             env: Vec::new_in(arena),
             function_scopes: Vec::new_in(arena),
+            activations: Vec::new_in(arena),
             output: Vec::new_in(arena),
             errors: Diagnostics::new(arena),
             arena,
@@ -825,6 +829,9 @@ impl<'a> Runtime<'a> {
         let param_ids = self.bound_param_ids(func_def.id, func_def.params);
         let has_frame = self.has_frame_arena();
         self.push_scope_with_capacity(func_def.params.params.len(), self.frame);
+        if let Some(function_id) = func_def.id {
+            self.activations.push((function_id, self.env.len() - 1));
+        }
         let param_scope =
             self.env.last_mut().expect("Parameter scope should exist immediately after push");
         for ((param, maybe_local), arg) in
@@ -847,6 +854,9 @@ impl<'a> Runtime<'a> {
         // We execute the function body with proper return value handling
         let flow = self.exec_block_with_flow(func_def.body);
         self.pop_scope();
+        if func_def.id.is_some() {
+            self.activations.pop();
+        }
 
         let val = match flow? {
             ExecFlow::Continue => Value::Null,
@@ -1592,10 +1602,11 @@ impl<'a> Runtime<'a> {
         span: Span,
     ) -> Result<(), RuntimeError> {
         let has_frame = self.has_frame_arena();
+        let floor = self.local_search_floor(local);
         let pool = &self.pool;
         let frame = self.frame;
 
-        for scope in self.env.iter_mut().rev() {
+        for scope in self.env[floor..].iter_mut().rev() {
             if let Some(slot) = scope.iter_mut().rev().find(|slot| slot.id == Some(local)) {
                 Self::overwrite_slot(&mut slot.value, val, has_frame, pool, frame);
                 return Ok(());
@@ -1790,8 +1801,24 @@ impl<'a> Runtime<'a> {
         self.lookup_local_env(local)
     }
 
+    // A local lives in the newest activation of the function that owns it. Scopes
+    // below that activation's parameter scope hold other instances of the same
+    // declaration (an outer recursive call) and must not answer the lookup.
+    fn local_search_floor(&self, local: LocalId) -> usize {
+        let Some(facts) = self.facts() else {
+            return 0;
+        };
+        let owner = facts.locals[local.0 as usize].owner;
+        self.activations
+            .iter()
+            .rev()
+            .find_map(|(function, base)| (*function == owner).then_some(*base))
+            .unwrap_or(0)
+    }
+
     fn lookup_local_mut(&mut self, local: LocalId) -> Option<&mut Value<'a>> {
-        for scope in self.env.iter_mut().rev() {
+        let floor = self.local_search_floor(local);
+        for scope in self.env[floor..].iter_mut().rev() {
             for slot in scope.iter_mut().rev() {
                 if slot.id == Some(local) {
                     return Some(&mut slot.value);
@@ -1920,7 +1947,8 @@ impl<'a> Runtime<'a> {
     }
 
     fn lookup_local_env(&self, local: LocalId) -> Option<&Value<'a>> {
-        self.env.iter().rev().find_map(|scope| {
+        let floor = self.local_search_floor(local);
+        self.env[floor..].iter().rev().find_map(|scope| {
             scope
                 .iter()
                 .rev()
